@@ -20,8 +20,7 @@ RULE = ("cases = (function registry, integer bounds, query text): random registr
         "the fault / boundary integer / call sits below the top level of a filter (under !, &&, ||, parentheses, "
         "inside an argument or a nested filter); distinct by (registry, bounds, text)")
 ASSUMPTIONS = ["vlib/ref/typecheck.py implements RFC 9535 2.4.3 as restated in the property",
-               "function names true/false/null are not registered (DISPUTED)",
-               "arguments that start with '!' or '(' are excluded from acceptance claims while finding R is open"]
+               "function names true/false/null are not registered (DISPUTED)"]
 TECHNIQUE = "Hypothesis property-based testing with fault injection; oracle = independent type checker + ABNF recogniser"
 LEVEL_TEXT = ("Random function registries and integer bounds, well-typed queries and single-fault variants at every "
               "syntactic position; compile() must agree with an independent judgement in both directions and must "
